@@ -45,6 +45,7 @@ def check(ctx):
     for cls in SIM_CLASSES:
         n_loops += check_step(ctx, cls)
     ctx.floor("C04-b", n_loops, 2, "reachable simulate loops")
+    check_all_steps_and_storage(ctx, None, "C04-f")
     check_solver_sites(ctx)
     f = ctx.P.func(RES + "MultiPhaseReservoir.simulate")
     if unreachable_after_raise(f.node):
@@ -231,3 +232,55 @@ def _flag_checked(fnode, call):
             if any(isinstance(s, ast.Raise) for st in n.body + n.orelse for s in ast.walk(st)):
                 return True
     return False
+
+
+def check_all_steps_and_storage(ctx, rule_steps, rule_dtype):
+    """shared (C01 C02 C03 C17): every increment of the time grid is solved for, nothing else writes a level, and
+    the buffers allocated from caller arrays do not inherit their dtype"""
+    from ..values import RangeV
+
+    for cls in SIM_CLASSES:
+        it, f, parts = _step(ctx, cls)
+        q = RES + cls + ".simulate"
+        seen = set()
+        for p, ev, A, b in parts:
+            res = ev.data.get("result")
+            is_sol = lambda v: v is res or (isinstance(v, ExtObj) and v.qual.endswith("[0]") and v.args.get("of") is res)
+            stores = [e for e in p.events if e.kind == "store_sub" and isinstance(e.data["base"], Arr2) and is_sol(e.data["value"])]
+            arr = stores[0].data["base"] if stores else None
+            loops = [e for e in p.events if e.kind == "for_iter" and e.func == q]
+            others = [e for e in p.events if e.kind == "store_sub" and arr is not None and e.data["base"] is arr and e not in stores and not (isinstance(e.data["index"], TupV) and isinstance(e.data["index"].items[0], Num) and not e.data["index"].items[0].nf)]
+            okloop, exits = False, []
+            if len(loops) == 1 and isinstance(loops[0].data["iter"], RangeV):
+                ra = [it.to_nf(x) for x in loops[0].data["iter"].args]
+                stop = ra[0] if len(ra) == 1 else (ra[1] if len(ra) == 2 and not ra[0] else None)
+                okloop = stop in [nf.sub(nf.fn("len", nf.sym("time")), nf.ONE), nf.sub(nf.fn("[]", nf.sym("time.shape"), nf.const(0)), nf.ONE)]
+                exits = [n.lineno for st in loops[0].node.body for n in ast.walk(st) if isinstance(n, (ast.Break, ast.Return))]
+            sig = (okloop, tuple(exits), len(others))
+            if rule_steps and sig not in seen:
+                seen.add(sig)
+                ctx.check(
+                    okloop and not exits and not others and arr is not None, rule_steps, q + ":all steps taken", f"{f.file}:{ev.line}",
+                    "the time loop runs over all len(time) - 1 increments, has no early exit, and no statement other than the solve writes a time level",
+                    signature="steps skipped", early_exit_lines=exits, other_level_stores=[f"line {e.line}" for e in others],
+                )
+            if not rule_dtype:
+                continue
+            for e in p.events:
+                if e.kind != "alloc" or (e.node, "d") in seen:
+                    continue
+                seen.add((e.node, "d"))
+                buf = e.data["buf"]
+                kw = getattr(buf, "kwargs", None) or {}
+                dt = kw.get("dtype")
+                dts = nf.show(it.to_nf(dt), 60) if dt is not None else ""
+                f64 = any(t in dts for t in ("float64", "<ext float>", "numpy.double", "'f8'", "'float64'", "'d'"))
+                like = e.data["callee"].endswith("_like")
+                proto = getattr(buf, "proto", None)
+                from_arg = like and proto is not None and bool(nf.symbols(it.to_nf(proto)) & set(ctx.P.func(q).params))
+                ok = (dt is None and not from_arg) or f64
+                ctx.check(
+                    ok, rule_dtype, q + f":{e.data['callee'].split('.')[-1]} dtype", f"{f.file}:{e.line}",
+                    "arrays allocated during the simulation are float64: they neither inherit the dtype of a caller's array (integer time grid!) nor narrow the stored levels",
+                    signature="dtype " + (dts or ("inherited" if from_arg else "default")), dtype=dts or ("inherited from " + nf.show(it.to_nf(proto), 40) if from_arg else "default float64"),
+                )
